@@ -19,8 +19,7 @@ def plans(ctx):
             R.Plan("t1b", "S_t1b", emit_mod=90, max_inst=1, max_pw=2, rich_sel="RichModes"),
             R.Plan("q1", "S_q1", emit_mod=160, max_inst=1, max_pw=2),
             # a service whose name is a prefix of another's; an entry with an unknown protocol word (never queried)
-            R.Plan("pref", "S_pref", emit_mod=300, max_inst=1, max_pw=2),
-            R.Plan("unk", "S_unk", emit_mod=400, max_inst=1, max_pw=2)]
+            R.Plan("pref", "S_pref", emit_mod=250, max_inst=1, max_pw=2)]
     return [R.Plan("d1", "S_t1a", script="ScriptData1", rich_sel="RichData", emit_mod=2, max_pw=1),
             R.Plan("d2", "S_t1b", script="ScriptData2", rich_sel="RichData", emit_mod=6, max_pw=1),
             R.Plan("d3", "S_t1d", script="ScriptData3", rich_sel="RichData", emit_mod=1, max_pw=1),
